@@ -187,7 +187,8 @@ impl<'a, 'ast> Visit<'ast> for Marker<'a> {
             let occ = f.stmt_occ.entry(name.clone()).or_insert(0);
             *occ += 1;
             f.stmts.push(json!({"idx": k, "key": format!("let:{}#{}", name, occ)}));
-            let end = nr(l).1;
+            let (start, end) = nr(l);
+            self.ins(start, format!("/*@F{}:S{}:BEFORE@*/", fidx, k));
             self.ins(end, format!("/*@F{}:S{}:AFTER@*/", fidx, k));
         }
         if let Some(init) = &l.init {
